@@ -418,6 +418,14 @@ func c17Body(c *c17Case, o *c17Obs) func() {
 			swg.Wait()
 		} else {
 			wg.Wait()
+			if c.TimeoutMs == 0 && len(c.Keys) == 0 {
+				// timeout 0 means "send immediately" whatever send_batch_size says: once the processor has nothing left to do,
+				// nothing may be pending
+				vs.AwaitQuiescence(nil)
+				if n, first := pending(); n > 0 {
+					o.violations = append(o.violations, fmt.Sprintf("timeout: %d items accepted at %v are still pending while the processor is idle, with timeout 0 (send_batch_size %d)", n, first, c.Size))
+				}
+			}
 			// let time pass first when a timeout is configured: the timer must flush what is pending
 			if c.TimeoutMs > 0 && c.Size > 0 {
 				vs.Sleep(2 * time.Duration(c.TimeoutMs) * time.Millisecond)
@@ -693,6 +701,9 @@ func TestVerif(t *testing.T) {
 	// arrivals spread over (virtual) time: the timer has to be re-armed after a timeout flush and after a size flush
 	cases = append(cases, &c17Case{Signal: "logs", Size: 3, Max: 0, TimeoutMs: 1000, Producers: [][]c17Send{{{Shape: one(1)}, {Shape: one(1), WaitMs: 1500}}, {{Shape: one(1), WaitMs: 2700}}}, Concurrent: false})
 	cases = append(cases, &c17Case{Signal: "traces", Size: 2, Max: 2, TimeoutMs: 1000, Producers: [][]c17Send{{{Shape: one(3), WaitMs: 400}, {Shape: one(1), WaitMs: 700}}, {{Shape: one(1), WaitMs: 2500}}}, Concurrent: false})
+	// timeout 0 with a send_batch_size that the arrivals do not reach: "send immediately"
+	cases = append(cases, &c17Case{Signal: "logs", Size: 5, Max: 0, TimeoutMs: 0, Producers: [][]c17Send{{{Shape: one(1)}, {Shape: one(2)}}, {{Shape: one(1)}}}, Concurrent: false})
+	cases = append(cases, &c17Case{Signal: "metrics", Size: 5, Max: 5, TimeoutMs: 0, Producers: [][]c17Send{{{Shape: one(2)}}, {{Shape: one(1)}}}, Concurrent: false})
 	cases = append(cases, &c17Case{Signal: "traces", Size: 0, Max: 0, TimeoutMs: 0, Producers: [][]c17Send{{{Shape: one(2)}}, {{Shape: one(1)}}}, Concurrent: true})
 	cases = append(cases, &c17Case{Signal: "metrics", Size: 2, Max: 2, TimeoutMs: 1000, Producers: [][]c17Send{{{Shape: c17Shape{{{1, 2}}}}}, {{Shape: c17Shape{{{2}}}}}}, Concurrent: false})
 	// metadata keys and cardinality limit
